@@ -48,6 +48,7 @@ type cmdCase struct {
 	Hosts     int    `json:"hosts"`
 	HTTP2     bool   `json:"http2"`
 	H2C       bool   `json:"h2c"`
+	HostHdr   bool   `json:"hosthdr"`
 }
 
 func (c cmdCase) valid() bool {
@@ -161,6 +162,9 @@ func (c cmdCase) op(dir string) map[string]any {
 	if c.Hdr {
 		args = append(args, "-header", "X-Flag: a", "-header", "x-flag: b")
 	}
+	if c.HostHdr {
+		args = append(args, "-header", "Host: virtual.example")
+	}
 	if c.Body {
 		args = append(args, "-body", "{{DIR}}/dflt.txt")
 	}
@@ -243,6 +247,7 @@ func TestDrv_E2E(t *testing.T) {
 			c.Trust = pick("insecure", "rootcert", "none")
 		}
 		c.H2C = c.Server == "h2c" && r.Intn(2) == 0
+		c.HostHdr = r.Intn(5) == 0
 		if !c.valid() {
 			continue
 		}
@@ -335,9 +340,21 @@ func TestDrv_E2E(t *testing.T) {
 					ip = h
 				}
 				num := func(key string) int64 { f, _ := q[key].(float64); return int64(f) }
-				qs = append(qs, KV{"seq": seq, "attack": str(q, "attack"), "method": str(q, "method"), "path": str(q, "path"), "host": host,
+				// the host of the URL the request was made for (the connection pool's key), from the list entry its path names
+				li := idx[str(q, "path")]
+				if str(q, "path") == "/redirect/0" {
+					li = 4
+				}
+				dialhost := "127.0.0.1"
+				if c.ConnectTo {
+					dialhost = "E2E.invalid"
+					if c.Hosts == 2 && li%2 == 0 {
+						dialhost = "E2Eb.invalid"
+					}
+				}
+				qs = append(qs, KV{"seq": seq, "attack": str(q, "attack"), "method": str(q, "method"), "path": str(q, "path"), "host": host, "dialhost": dialhost,
 					"flag": vals("X-Flag"), "own": vals("X-Own"), "body": str(q, "body"), "chunked": q["chunked"] == true, "ip": ip,
-					"conn": str(q, "remote"), "tls": q["tls"] == true, "proto": str(q, "proto"), "start": num("start_ns") / 1000, "end": num("end_ns") / 1000})
+					"conn": num("conn_id"), "tls": q["tls"] == true, "proto": str(q, "proto"), "start": num("start_ns") / 1000, "end": num("end_ns") / 1000})
 			}
 		}
 		if len(qs) > 300 {
